@@ -73,6 +73,7 @@ fn main() {
         "inc-splits" => inchash::cmd_splits(rest),
         "inc-replay" => inchash::cmd_replay(rest),
         "inc-trace" => inchash::cmd_trace(rest),
+        "inc-params" => inchash::cmd_params(rest),
         #[cfg(feature = "nightly")]
         "prot-replay" => prot::cmd_replay(rest),
         #[cfg(feature = "nightly")]
